@@ -43,8 +43,8 @@ type Replay struct {
 }
 
 var namePool = []string{"pa", "pb", "Pz", "p_1", "pa.x", "zz", "a-b", "B", "pab", "p/q"}
-var validFrom = []string{"", "a=b", "{x=y}", "name=app1 OR name=app2"}
-var validWhere = []string{"", "msg contains \"err\"", "ts > \"2019-01-01T00:00:00Z\" AND msg prefix abc"}
+var validFrom = []string{"", "a=b", "{x=y}", "name=app1 OR name=app2", "name=App1 OR name=app2", "A=b", "a=B"}
+var validWhere = []string{"", "msg contains \"err\"", "msg contains \"ERR\"", "msg CONTAINS \"err\"", "ts > \"2019-01-01T00:00:00Z\" AND msg prefix abc"}
 var invalidCond = []string{"a=", "((", "msg contains", "{"}
 
 func gPipe(n, f, w string) string {
@@ -428,7 +428,13 @@ func corpus() []Replay {
 		{Kind: "restartcfg", Cfg: []CfgPipe{{Name: "Pz", From: "q=r", Valid: true}, {Name: "pb", From: "((", Valid: false}, {Name: "pa", From: "", Valid: true}}},
 		list(0, 0), {Kind: "describe", Name: "Pz"}, {Kind: "describe", Name: "pb"}, {Kind: "describe", Name: "pa"},
 		{Kind: "ensure", Name: "pb", From: "a=b", Valid: true}, {Kind: "restart"}, list(0, 0)}
-	return []Replay{{Kind: "hist", Ops: h1}, {Kind: "hist", Ops: h2}, {Kind: "erace", K: 2}, {Kind: "erace", K: 3}, {Kind: "erace", K: 8}}
+	// definitions that differ only in the case of a letter are different definitions
+	en := func(f, w string) Op { return Op{Kind: "ensure", Name: "pa", From: f, Where: w, Valid: true} }
+	h3 := []Op{{Kind: "create", Name: "pa", Valid: true, From: "name=app1", Where: "msg contains \"err\""},
+		en("name=App1", "msg contains \"err\""), en("name=app1", "msg contains \"ERR\""), en("NAME=app1", "msg contains \"err\""),
+		en("name=app1", "msg CONTAINS \"err\""), en("name=app1", "msg contains \"err\""), {Kind: "describe", Name: "pa"},
+		{Kind: "ensurerpc", Name: "pa", From: "name=app1", Where: "MSG contains \"err\"", Valid: true}, {Kind: "describe", Name: "pa"}}
+	return []Replay{{Kind: "hist", Ops: h1}, {Kind: "hist", Ops: h2}, {Kind: "hist", Ops: h3}, {Kind: "erace", K: 2}, {Kind: "erace", K: 3}, {Kind: "erace", K: 8}}
 }
 
 // runEnsureRace: k goroutines ensure the same new name with the same definition concurrently on the real service
